@@ -47,7 +47,7 @@ class C08(HistoryProperty):
         "dictionary inside a section or at a leaf"
     )
     ASSUMPTIONS = ["type-consistent CALLER dictionaries (no plain value at a section prefix the program reads through); pre-set dictionaries may hold a plain value where a neighbouring layer holds a section", "pre-sets of a derivation disjoint from leaves forced by its base"]
-    QUICK = {"runs": 15000, "wall": 40}
+    QUICK = {"runs": 18000, "wall": 40}
     THOROUGH = {"runs": 300000, "wall": 480}
     NONTRIVIAL_MEASURE = "history_with_overlap"
 
